@@ -5,7 +5,8 @@ From Coq Require Import Extraction ExtrOcamlBasic ExtrOcamlZBigInt.
 Require Import V.base.Fld V.model.CurveParams V.model.Curve V.model.PointCodec.
 Extraction Blacklist List String Nat.
 Extraction "model.ml"
-  k256_codec_f p256_codec_f pallas_codec_f vesta_codec_f blsg1_codec_f ed25519_codec_f curve25519_params_f
+  k256_codec_f p256_codec_f pallas_codec_f vesta_codec_f blsg1_codec_f ed25519_codec_f curve25519_params_f blsg2_codec_f
+  blsg2_dec_c blsg2_enc_c blsg2_dec_u blsg2_enc_u blsg2_from_affine gt_from_bytes gt_bytes gt_coeffs
   sec1_dec_c sec1_enc_c sec1_dec_u sec1_enc_u
   pasta_dec_c pasta_enc_c pasta_dec_u pasta_enc_u
   blsg1_dec_c blsg1_enc_c blsg1_dec_u blsg1_enc_u blsg1_from_affine blsg1_from_affine_x
